@@ -155,12 +155,27 @@ pub fn generate(kind: &str, thorough: bool, seed: u64, corpus: &str, out: &mut O
             for si in pool() {
                 out.schema(&si);
                 for t in corpus_docs(corpus, &si.name) { crate::valcases::validate_case(&si, &t, &tmp, out); }
-                for t in random_docs(&si, &mut rng, 120 * scale, 4) { crate::valcases::validate_case(&si, &t, &tmp, out); }
+                for t in random_docs(&si, &mut rng, 120 * scale, 4) {
+                    let plans = crate::valcases::random_plans(&mut rng, 2);
+                    crate::valcases::validate_case_plans(&si, &t, &tmp, &plans, out);
+                }
             }
             for i in 0..(6 * scale) {
                 let si = gen::SchemaInfo::new(&format!("random{}", i), &gen::random_schema(&mut rng));
                 out.schema(&si);
                 for t in random_docs(&si, &mut rng, 40, 4) { crate::valcases::validate_case(&si, &t, &tmp, out); }
+            }
+        }
+        "purity" => {
+            let tmp = tmpdir();
+            let fork = std::env::var("VERIF_FORK_EXE").ok();
+            let mut sis = pool();
+            for i in 0..(3 * scale) { sis.push(gen::SchemaInfo::new(&format!("random{}", i), &gen::random_schema(&mut rng))); }
+            for si in &sis {
+                out.schema(si);
+                let mut texts = corpus_docs(corpus, &si.name);
+                texts.extend(random_docs(si, &mut rng, 60 * scale, 4));
+                crate::purity::batch(si, &texts, &tmp, fork.as_deref(), out);
             }
         }
         _ => panic!("unknown kind {}", kind),
